@@ -540,3 +540,30 @@ for _pid, _t in _ROUND5.items():
     assert " Does not decide:" in _e, _pid
     PROPS[_pid]["explanation"] = _e.replace(
         " Does not decide:", " " + _t + " Does not decide:", 1)
+
+
+# Clauses added after the sixth seeding round (DESIGN 9.10).
+_ROUND6 = {
+    "C03": "R65 a 1-based count returned as day/month is reduced by a "
+           "period length only under a strict `>` (bisect_left, not "
+           "bisect); R66 no day count is divided by the length of a single "
+           "year.",
+    "C04": "R12 each borrow of the field-wise difference decrements the "
+           "next unit up (an increment is a violation).",
+    "C07": "R24 fraction groups take at least nine digits.",
+    "C10": "R26 after a duration regex matched nothing refuses the text; "
+           "R23/R24 (the time point tables) decide the date-time-like "
+           "spelling.",
+    "C11": "R17 a slot-wise __sub__ subtracts in every slot.",
+    "C13": "R68 get_first_after answers None only where the following "
+           "point or the probe was found outside the bounds.",
+    "C19": "R67 date_shift strips the sign of an offset before the parser "
+           "sees it; the duration text rules (R26/R27/R60) and, through the "
+           "call graph of main and the operator, the core rules of the data "
+           "model are evaluated for this property too.",
+}
+for _pid, _t in _ROUND6.items():
+    _e = PROPS[_pid]["explanation"]
+    assert " Does not decide:" in _e, _pid
+    PROPS[_pid]["explanation"] = _e.replace(
+        " Does not decide:", " " + _t + " Does not decide:", 1)
